@@ -226,18 +226,16 @@ def SM2.roundSupportPoint (s : SM2 K) (border : K) (m : Iso2 K) (dir : V2 K) : V
   let u := normalize2 (m.invRot dir)
   m.act ((s.localSupportToward u).add (u.smul border))
 
-/-! ## `HalfSpace::cast_local_ray`
+/-! ## `HalfSpace::cast_local_ray`  (`cast_local_ray_and_get_normal(..).map(|i| i.time_of_impact)`)
 
-`t = dot_normal_dpos / normal.dot(dir)` has no guard in the Rust.  When the denominator is `±0` the IEEE quotient is
-`±∞` or NaN and `t >= 0 && t <= max_time_of_impact` is false for every *finite* `max_time_of_impact`, i.e. `None`;
-the model makes that branch explicit (a field has no `∞`).  Inputs with `max_time_of_impact = +∞` are outside the
-modelled domain (DESIGN §8 item 14 belongs to C04/C20). -/
+A ray parallel to the boundary plane (`normal·dir == 0`) touches it only if its origin already lies on it
+(`Some(0)`), otherwise `None`; no division happens in that case. -/
 def halfspaceCastLocalRay3 (n origin dir : V3 K) (maxToi : K) (solid : Bool) : Option K :=
   let dpos := origin.neg
   let dnd := n.dot dpos
   if solid && decide (0 < dnd) then some 0 else
   let den := n.dot dir
-  if neq den 0 then none else
+  if neq den 0 then (if neq dnd 0 then some 0 else none) else
   let t := dnd / den
   if decide (0 ≤ t) && decide (t ≤ maxToi) then some t else none
 def halfspaceCastLocalRay2 (n origin dir : V2 K) (maxToi : K) (solid : Bool) : Option K :=
@@ -245,7 +243,7 @@ def halfspaceCastLocalRay2 (n origin dir : V2 K) (maxToi : K) (solid : Bool) : O
   let dnd := n.dot dpos
   if solid && decide (0 < dnd) then some 0 else
   let den := n.dot dir
-  if neq den 0 then none else
+  if neq den 0 then (if neq dnd 0 then some 0 else none) else
   let t := dnd / den
   if decide (0 ≤ t) && decide (t ≤ maxToi) then some t else none
 
